@@ -19,8 +19,9 @@
       graphs lie in the orbit", which C16 proves of the four modelled explorers.
     * when `solve` RETURNS: `alternate_target_returns_if_yes` (every target on ≥ 1 vertex without isolated vertex, explorers in the orbit:
       it returns as soon as `is_lc_equivalent` says yes on every pair it is asked about — the solver returns by C02 completeness, `lc_check` is
-      total and validated by C09, `str_to_op` knows every emitted gate name) and `alternate_target_returns_partial` (relative to the
-      completeness of the LC decision, `lc_decision_complete_statement`, which C09 reduces to the pair-sum claim of the literature).
+      total and validated by C09, `str_to_op` knows every emitted gate name), `alternate_target_returns_partial` (relative to the
+      completeness of the LC decision, `lc_decision_complete_statement`) and `alternate_target_total_correct_partial`: relative to C09's single
+      remaining hypothesis `shortcut_complete_on_connected_statement` (the pair-sum claim of the literature), `solve` returns AND every entry is right.
   Orbit membership of the listed graph is decided per output by the harness (independent BFS); the explorers are C16.
 -/
 import GraphiqModel.Properties.C02
@@ -30,6 +31,7 @@ import GraphiqModel.Proofs.AltTargetFinal
 import GraphiqModel.Proofs.AltTargetReturns
 import GraphiqModel.Proofs.AltTargetReturnsConv
 import GraphiqModel.Proofs.LCTotalR
+import GraphiqModel.Properties.C09
 namespace Graphiq.C10
 open Graphiq Graphiq.PRow Graphiq.Tab Graphiq.STab
 
@@ -321,14 +323,17 @@ theorem alternate_target_returns_if_yes (pick : List Nat → Nat) (np : Nat) (ta
       exact Alt.convModel_isSome lc iso _ (hc true)
 
 /-- "the repaired `is_lc_equivalent` never says no on two graphs of the same LC orbit": the completeness half of C09
-    `decides_lc_equivalence_repaired_statement`, which C09 proves (`decides_lc_equivalence_repaired_partial`) relative to the one claim of
-    the literature it leaves unproved, the completeness of the pair-sum shortcut on connected graphs
-    (`shortcut_complete_on_connected_statement`); restated here because `Properties/C09.lean` and `Properties/C02.lean` cannot be imported
-    together yet (duplicate `b2z` in `Proofs/GF2Matrix.lean` / `Proofs/HeightEntropy.lean`) -/
+    `decides_lc_equivalence_repaired_statement`, which C09 proves relative to the one claim of the literature it leaves unproved, the
+    completeness of the pair-sum shortcut on connected graphs (`lc_decision_complete_of_shortcut` below) -/
 def lc_decision_complete_statement : Prop :=
   ∀ (a b : BMat) (out : LC.EqOutR), 0 < a.r → a.r = b.r → Simple a.r a.f → Simple b.r b.f →
     LC.isLcEquivalentR a b .det [] = .ok out →
     (∃ vs : List Nat, (∀ v ∈ vs, v < a.r) ∧ EqAdj a.r (applySeq a.f vs) b.f) → out.sol.isSome = true
+
+/-- C09: the completeness of the pair-sum shortcut on connected graphs gives the completeness of the repaired decision -/
+theorem lc_decision_complete_of_shortcut (hshort : C09.shortcut_complete_on_connected_statement) : lc_decision_complete_statement := by
+  intro a b out hn hab ha hb e horb
+  exact (C09.decides_lc_equivalence_repaired_partial hshort a b [] out hn hab ha hb e).2 horb
 
 /-- **relative to the completeness of the LC decision, `solve` returns** for every target on ≥ 1 vertex without isolated vertex when the
     explorers stay in the orbits (C16) and the maps pass the `GraphMatcher` specification: the repaired `is_lc_equivalent` is total (C09)
@@ -355,6 +360,28 @@ theorem alternate_target_returns_partial (hdec : lc_decision_complete_statement)
   obtain ⟨vs, hvs, hb⟩ := Alt.InOrbit.back hsi ho
   rw [hr]
   exact ⟨vs, hvs, hb⟩
+
+/-- **relative to the completeness of the pair-sum shortcut on connected graphs (C09 `shortcut_complete_on_connected_statement`, Van den Nest et
+    al., the single hypothesis C09 leaves), `solve` returns AND is right**: every target on ≥ 1 vertex without isolated vertex, explorers in
+    the orbits (C16), maps passing the `GraphMatcher` specification — `solve` returns a list of entries each of which generates, under every
+    outcome script, the target renamed by its map, with pairwise different listed graphs -/
+theorem alternate_target_total_correct_partial (hshort : C09.shortcut_complete_on_connected_statement)
+    (pick : List Nat → Nat) (np : Nat) (target : Nat → Nat → Bool)
+    (isoAdjs : List BMat) (lcGraphs : BMat → List BMat) (relabelMap : BMat → List Nat)
+    (hnp : 0 < np) (htarget : Simple np target) (hniso : Alt.NoIsolated np target)
+    (hshape : ∀ iso, iso ∈ isoAdjs → iso.r = np)
+    (horbit : ∀ iso lc, iso ∈ isoAdjs → lc ∈ lcGraphs iso → InOrbit np iso.f lc)
+    (hmatch : ∀ iso, iso ∈ isoAdjs → isIsoMap np target iso.f (relabelMap iso) = true)
+    (hpick : ∀ keys : List (List Bool), ∀ s, s ∈ Alt.setList keys → pick s ∈ s) :
+    ∃ out, Alt.solve (modelParts np isoAdjs lcGraphs relabelMap) pick = .ok out ∧
+      (∀ e, e ∈ out → ∀ script : List Bool, script.length = countMeas e.ops →
+        ∃ s, stabRun e.ne np .prob script e.ops = some s ∧
+          ∀ p, (STab.ofTab s.t).Spn p ↔ (targetSTab np e.ne (relabelAdj np target e.map)).Spn p) ∧
+      out.Pairwise (fun e e' => e.g.flat ≠ e'.g.flat) := by
+  obtain ⟨out, h⟩ := alternate_target_returns_partial (lc_decision_complete_of_shortcut hshort) pick np target isoAdjs lcGraphs relabelMap
+    hnp htarget hniso hshape horbit hmatch
+  obtain ⟨h1, h2, _⟩ := alternate_target_result_sound_in_orbit pick np target out isoAdjs lcGraphs relabelMap htarget horbit hmatch hpick h
+  exact ⟨out, h, h1, h2⟩
 
 /-! ### Non-vacuity of `solve_result_correct`: one relabelled target (the path 0–1–2 itself), one LC graph, the known circuit -/
 def pathB : BMat := (BMat.ofAdj 3 C02.lin3adj)
